@@ -47,6 +47,21 @@ func c06Quiet() {
 	log.StandardLogger().ExitFunc = func(int) {}
 }
 
+// c06WaitInput: the driver starts `go test` while TLC is still running, so that compiling and linking overlap
+// with model checking; the test then waits for "<input>.ready" ("go" or "abort").
+func c06WaitInput(path string) bool {
+	if kit.Env("VERIF_IN_WAIT", "") == "" {
+		return true
+	}
+	for i := 0; i < 20*60*20; i++ {
+		if b, err := os.ReadFile(path + ".ready"); err == nil && len(b) > 0 {
+			return strings.HasPrefix(string(b), "go")
+		}
+		time.Sleep(50 * time.Millisecond)
+	}
+	return false
+}
+
 // ------------------------------------------------------------------------------------ abstract case (TLC)
 
 type c06Case struct {
